@@ -77,7 +77,52 @@ func VerifHarness_C18_O2() {
 	verifReach("end")
 }
 
-
 // C18/O4 — "fewer than one third of THAT ROUND's validators": only members of
 // the round's validator set can be witnesses (same obligation as C01/O1c).
 func VerifHarness_C18_O4() { VerifHarness_C01_O1c() }
+
+// C18/O5 — from the frame to the delivered block nothing else enters the
+// timestamp.  A node whose last stored block carries a symbolic timestamp
+// processes two decided rounds whose cached frames have SYMBOLIC timestamps and
+// one event each (symbolic claimed creation time, with a transaction): every
+// delivered (and stored) block carries exactly its frame's timestamp — whatever
+// the events of the frame claim and whatever the previous block's timestamp was.
+func VerifHarness_C18_O5() {
+	vn := verifNewNet(2, 100)
+	h := vn.h
+	prev := NewBlock(0, 0, []byte("fh"), vn.set.Peers, [][]byte{{9}}, nil, verifNondetInt64("previousBlockTimestamp"))
+	if err := h.Store.SetBlock(prev); err != nil {
+		panic(err)
+	}
+	var delivered []*Block
+	h.commitCallback = func(b *Block) error {
+		delivered = append(delivered, b)
+		return nil
+	}
+	T := make([]int64, 3)
+	for r := 1; r <= 2; r++ {
+		T[r] = verifNondetInt64(fmt.Sprintf("frameTimestamp%d", r))
+		ri := NewRoundInfo()
+		ri.decided = true
+		h.Store.SetRound(r, ri)
+		ev := vn.mkEvent(0, "", "", 0, [][]byte{{byte(r)}})
+		ev.Body.Index = r
+		ev.Body.Timestamp = verifNondetInt64(fmt.Sprintf("eventTimestamp%d", r))
+		frame := &Frame{Round: r, Peers: vn.set.Peers, Roots: map[string]*Root{}, Events: []*FrameEvent{{Core: ev, Round: r - 1, LamportTimestamp: r}}, Timestamp: T[r]}
+		if err := h.Store.SetFrame(frame); err != nil {
+			panic(err)
+		}
+		h.PendingRounds.Set(&PendingRound{Index: r, Decided: true})
+	}
+	err := h.ProcessDecidedRounds()
+	verifAssert("rounds-processed", err == nil && len(delivered) == 2)
+	if err != nil || len(delivered) != 2 {
+		return
+	}
+	for i, b := range delivered {
+		verifAssert("delivered-block-timestamp-is-its-frames-timestamp", b.Timestamp() == T[i+1])
+		sb, gerr := h.Store.GetBlock(b.Index())
+		verifAssert("stored-block-timestamp-is-its-frames-timestamp", gerr == nil && sb.Timestamp() == T[i+1])
+	}
+	verifReach("end")
+}
